@@ -193,6 +193,11 @@ fn tweak_for(prop: &str) -> impl Fn(&mut Swarm) {
             if sw.guard("c03_no_ints_beyond_2_53") {
                 sw.extreme_ints = false;
             }
+            if sw.max_rows_stmt == 6 {
+                // one run in 6: a bulk-loaded table (more than one SIMD type probe window, sparse columns)
+                sw.big_rows = *[130usize, 260, 1100].get((sw.null_pct as usize + sw.steps) % 3).unwrap_or(&130);
+                sw.fault_pct = 0;
+            }
             sw.with_indexes = false;
             sw.with_tx = false;
             sw.fault_pct = sw.fault_pct.min(10);
